@@ -3,6 +3,9 @@
 //! fields, 1-2 segments) x a request alphabet covering every top-level feature (limits, executions,
 //! sort plans, filters, custom scoring, aggregations, collapse with inner hits, rescore, second
 //! pages of cursor walks) x {explain, profile} in 2^2, compared with the flags-off run.
+//! A second sweep (run first) uses 24-64 documents with identical text - large score-tie classes
+//! whose field keys run against insertion order - in 1-3 segments x multi-key sort plans led by
+//! `_score` and by a field x limits {1,3,5} x the first three pages of a cursor walk.
 
 use std::collections::BTreeSet;
 use std::sync::atomic::{AtomicBool, AtomicU64, Ordering};
@@ -89,6 +92,60 @@ fn requests() -> Vec<(&'static str, Value, bool)> {
   v.push(("page2-sort", json!({"query": "a b", "limit": 1, "execution": "bm25", "sort": [{"field": "kw"}, {"field": "n", "order": "desc"}]}), true));
   v.push(("page2-aggs", json!({"query": "a b", "limit": 1, "execution": "wand", "aggs": aggs}), true));
   v
+}
+
+// --- large score-tie family: many documents with identical text (one or two score classes) whose
+// field keys order them against insertion order, so that secondary sort keys - not the internal
+// document id - decide who makes a page.
+
+/// Document i of n: text of score class i mod classes, `n` and `kw` decreasing with insertion
+/// order, `f` increasing with it.
+fn tie_world(n: usize, classes: usize, segs: usize) -> World {
+  let texts = ["a", "a a"];
+  let docs: Vec<Value> = (0..n)
+    .map(|i| json!({"_id": format!("d{i:02}"), "body": texts[i % classes], "kw": format!("k{:02}", n - i), "n": n - i, "f": i as f64 * 0.5, "pop": 1 + (i % 3)}))
+    .collect();
+  let mut layout = vec![n / segs; segs];
+  *layout.last_mut().unwrap() += n - (n / segs) * segs;
+  World::new("body+kw+pop+n+f", c09::schema_json(), docs).with_layout(layout)
+}
+
+fn tie_worlds(sizes: &[usize]) -> Vec<World> {
+  let mut out = Vec::new();
+  for &n in sizes {
+    for classes in 1..=2 {
+      for segs in 1..=3 {
+        out.push(tie_world(n, classes, segs));
+      }
+    }
+  }
+  out
+}
+
+/// Multi-key plans led by `_score` and by a field, plus single-key controls.
+fn tie_plans() -> Vec<Value> {
+  vec![
+    json!([{"field": "_score", "order": "desc"}, {"field": "n", "order": "asc"}]),
+    json!([{"field": "_score"}, {"field": "n", "order": "desc"}]),
+    json!([{"field": "_score", "order": "desc"}, {"field": "kw", "order": "asc"}]),
+    json!([{"field": "_score"}, {"field": "f", "order": "desc"}, {"field": "kw"}]),
+    json!([{"field": "_score", "order": "asc"}, {"field": "n", "order": "asc"}]),
+    json!([{"field": "n", "order": "asc"}, {"field": "_score"}]),
+    json!([{"field": "kw", "order": "desc"}, {"field": "_score", "order": "desc"}]),
+    json!([{"field": "pop"}, {"field": "_score"}, {"field": "n"}]),
+    json!([{"field": "n", "order": "asc"}]),
+    json!([]),
+  ]
+}
+
+fn tie_queries() -> Vec<(Value, &'static str)> {
+  let term = json!({"type": "term", "field": "body", "value": "a"});
+  vec![
+    (json!("a"), "wand"),
+    (json!("a"), "bm25"),
+    (json!({"type": "function_score", "query": term, "boost_mode": "multiply", "functions": [{"type": "weight", "weight": 2.0}]}), "wand"),
+    (json!({"type": "match_all"}), "wand"),
+  ]
 }
 
 fn with_flags(base: &Value, explain: bool, profile: bool) -> Value {
@@ -194,19 +251,16 @@ struct Prepared {
 }
 
 /// Resolve the request (walk to page 2 when asked). None: no second page in this world.
-fn prepare(reader: &IndexReader, base: &Value, page2: bool) -> Result<Option<Prepared>, String> {
-  if !page2 {
-    return Ok(Some(Prepared { base: base.clone() }));
-  }
-  let first = search_caught(reader, &req(with_flags(base, false, false)))?;
-  match first.next_cursor {
-    Some(c) => {
-      let mut b = base.clone();
-      b["cursor"] = json!(c);
-      Ok(Some(Prepared { base: b }))
+fn prepare(reader: &IndexReader, base: &Value, skip_pages: usize) -> Result<Option<Prepared>, String> {
+  let mut b = base.clone();
+  for _ in 0..skip_pages {
+    let page = search_caught(reader, &req(with_flags(&b, false, false)))?;
+    match page.next_cursor {
+      Some(c) => b["cursor"] = json!(c),
+      None => return Ok(None),
     }
-    None => Ok(None),
   }
+  Ok(Some(Prepared { base: b }))
 }
 
 fn sort_has_score(base: &Value) -> bool {
@@ -275,8 +329,8 @@ enum Outcome {
   Fail(Option<&'static str>, String, String),
 }
 
-fn check_case(reader: &IndexReader, base: &Value, page2: bool, explain: bool, profile: bool) -> Outcome {
-  let p = match prepare(reader, base, page2) {
+fn check_case(reader: &IndexReader, base: &Value, skip_pages: usize, explain: bool, profile: bool) -> Outcome {
+  let p = match prepare(reader, base, skip_pages) {
     Ok(Some(p)) => p,
     Ok(None) => return Outcome::Skipped,
     Err(e) => return Outcome::Fail(None, "first-page".into(), format!("first page failed: {e}")),
@@ -320,7 +374,8 @@ pub fn run(ctx: &Ctx) -> i32 {
     let v: Value = serde_json::from_slice(&std::fs::read(path).expect("replay file")).expect("json");
     let cs = &v["case"];
     let world = World::from_json(&cs["world"]);
-    let (explain, profile, page2) = (cs["explain"].as_bool().unwrap_or(false), cs["profile"].as_bool().unwrap_or(false), cs["second_page"].as_bool().unwrap_or(false));
+    let (explain, profile) = (cs["explain"].as_bool().unwrap_or(false), cs["profile"].as_bool().unwrap_or(false));
+    let page2 = cs["skip_pages"].as_u64().map(|p| p as usize).unwrap_or(if cs["second_page"].as_bool().unwrap_or(false) { 1 } else { 0 });
     let run1 = || {
       let idx = world.build();
       let reader = idx.reader().expect("reader");
@@ -370,6 +425,69 @@ pub fn run(ctx: &Ctx) -> i32 {
   let worlds_done = AtomicU64::new(0);
   let timed_out = AtomicBool::new(false);
   let outcomes: Mutex<BTreeSet<String>> = Mutex::new(BTreeSet::new());
+  // ---- large score-tie sweep (small and run first, so that a busy machine never caps it away)
+  let tie_sizes: Vec<usize> = if quick { vec![24, 64] } else { vec![24, 32, 40, 48, 56, 64] };
+  let ws_t = tie_worlds(&tie_sizes);
+  let plans_t = tie_plans();
+  let qs_t = tie_queries();
+  let deadline_t = c09::budget(if quick { 12.0 } else { 200.0 });
+  let tie_cases = AtomicU64::new(0);
+  let tie_nontrivial = AtomicU64::new(0);
+  let (done_t, capped_t) = c09::par_sweep(&ws_t, &rep, deadline_t, |wi, world| {
+    let idx = world.build();
+    let reader = idx.reader().expect("reader");
+    let mut local: BTreeSet<String> = BTreeSet::new();
+    for (qi, (q, exec)) in qs_t.iter().enumerate() {
+      for (pi, plan) in plans_t.iter().enumerate() {
+        for (li, limit) in [1usize, 3, 5].iter().enumerate() {
+          let base = json!({"query": q, "execution": exec, "sort": plan, "limit": limit});
+          for skip in 0..3usize {
+            for (fi, (explain, profile)) in flags.iter().enumerate() {
+              evals.fetch_add(1, Ordering::Relaxed);
+              tie_cases.fetch_add(1, Ordering::Relaxed);
+              match check_case(&reader, &base, skip, *explain, *profile) {
+                Outcome::Skipped => {
+                  local.insert("tie-sweep: skipped (no such page)".into());
+                }
+                Outcome::Same { explanations: n, hits } => {
+                  explanations.fetch_add(n, Ordering::Relaxed);
+                  if hits >= 1 {
+                    nontrivial.fetch_add(1, Ordering::Relaxed);
+                    tie_nontrivial.fetch_add(1, Ordering::Relaxed);
+                  }
+                  local.insert(format!("tie-sweep: same, page {} explanations{}", skip + 1, n.min(1)));
+                }
+                Outcome::Fail(sig, aspects, what) => {
+                  local.insert(format!("tie-sweep: violation[{}] differs-in={}", sig.unwrap_or("-"), aspects));
+                  log.add(
+                    sig,
+                    vec![1, wi as u64, qi as u64, pi as u64, li as u64, skip as u64, fi as u64],
+                    || {
+                      format!(
+                        "{} documents d00.. (text of doc i: {}; n = kw = {}-i, f = i/2), layout {:?}; request={} page={} explain={} profile={}: {}",
+                        world.docs.len(),
+                        if world.docs.iter().any(|d| d["body"] == "a a") { "\"a\" / \"a a\" alternating" } else { "\"a\"" },
+                        world.docs.len(),
+                        world.layout,
+                        base,
+                        skip + 1,
+                        explain,
+                        profile,
+                        what
+                      )
+                    },
+                    || json!({"engine": "inputmc-explain/tie", "world": world.to_json(), "request_name": "tie", "request": base, "skip_pages": skip, "explain": explain, "profile": profile}),
+                  );
+                }
+              }
+            }
+          }
+        }
+      }
+    }
+    outcomes.lock().extend(local);
+  });
+
   let (done, capped) = c09::par_sweep(&ws, &rep, deadline, |wi, world| {
     let idx = world.build();
     let reader = idx.reader().expect("reader");
@@ -377,7 +495,7 @@ pub fn run(ctx: &Ctx) -> i32 {
     for (ri, (name, base, page2)) in reqs.iter().enumerate() {
       for (fi, (explain, profile)) in flags.iter().enumerate() {
         evals.fetch_add(1, Ordering::Relaxed);
-        match check_case(&reader, base, *page2, *explain, *profile) {
+        match check_case(&reader, base, *page2 as usize, *explain, *profile) {
           Outcome::Skipped => {
             local.insert("skipped (no second page / request rejected either way)".into());
           }
@@ -395,7 +513,7 @@ pub fn run(ctx: &Ctx) -> i32 {
             local.insert(format!("violation[{}] request={} differs-in={}", sig.unwrap_or("-"), name, aspects));
             log.add(
               sig,
-              vec![wi as u64, ri as u64, fi as u64],
+              vec![0, wi as u64, ri as u64, fi as u64],
               || format!("{} request[{}]={} second_page={} explain={} profile={}: {}", world.describe(), name, base, page2, explain, profile, what),
               || json!({"engine": "inputmc-explain", "world": world.to_json(), "request_name": name, "request": base, "second_page": page2, "explain": explain, "profile": profile}),
             );
@@ -406,7 +524,7 @@ pub fn run(ctx: &Ctx) -> i32 {
     outcomes.lock().extend(local);
   });
   worlds_done.store(done, Ordering::Relaxed);
-  timed_out.store(capped, Ordering::Relaxed);
+  timed_out.store(capped || capped_t, Ordering::Relaxed);
   log.flush(&rep);
   rep.add_evals(evals.load(Ordering::Relaxed));
   let to = timed_out.load(Ordering::Relaxed);
@@ -421,6 +539,7 @@ pub fn run(ctx: &Ctx) -> i32 {
     "worlds_completed" => worlds_done.load(Ordering::Relaxed),
     "world_space" => if quick { "every sequence of 2-3 of 6 document shapes x every 1-2 segment layout, plus every multiset of 4 shapes x {1 segment, 2+2}" } else { "every sequence of 2-6 of 6 document shapes x every 1-2 segment layout" },
     "requests" => reqs.iter().map(|r| json!({"name": r.0, "second_page": r.2, "request": r.1})).collect::<Vec<_>>(),
+    "tie_sweep" => json!({"worlds": ws_t.len(), "worlds_completed": done_t, "world_space": format!("{:?} documents x {{1,2}} score classes (identical text per class; n and kw decrease with insertion order, f increases) x {{1,2,3}} segments", tie_sizes), "sort_plans": plans_t, "queries_x_execution": qs_t.iter().map(|(q, e)| json!({"query": q, "execution": e})).collect::<Vec<_>>(), "limits": [1, 3, 5], "pages": "first three pages of the flags-off cursor walk", "cases": tie_cases.load(Ordering::Relaxed), "cases_equal_with_hits": tie_nontrivial.load(Ordering::Relaxed)}),
     "flag_combinations" => ["explain", "profile", "explain+profile"],
     "explanations_checked" => explanations.load(Ordering::Relaxed),
     "distinct_observed_outcomes" => outs.len(),
